@@ -125,11 +125,15 @@ CHECKS['C02'] = dict(
          'tracing_harness_loops_sound): an executable model of the tracing protocol (both branches run, the second after set_state of '
          'the entry values, first nouts entries of the chosen branch kept; carried state re-injected before every iteration into a store '
          'whose other variables hold arbitrary tracing garbage on assigned names) agrees with the original statement on every variable '
-         'live after it, for arbitrary bodies (functions on stores), values, iteration counts (divergence matched by divergence), with '
+         'live after it, for arbitrary bodies (functions on stores), values, iteration counts (divergence matched by divergence), and '
+         '(tracing_program_sound) for whole structured programs of any nesting depth under big-step semantics, with '
          'the state tuple and nouts being those of the generated formulas; the remaining hypotheses are the semantic contents of C08 '
          '(bodies write only their modified set) and C07 (liveness: live-out values depend only on live-in values; loop header kills '
-         'nothing). Tied by calling the real _get_block_vars on random liveness sets against the model, and by running the protocol '
-         'model against the injected backend on concrete stores. End to end the semantic form is additionally validated: the '
+         'nothing; for whole programs: the closure of the loop header sets, checked by an executable checker). Tied by calling the real '
+         '_get_block_vars on random liveness sets and on every context of the converted programs against the model, by running the '
+         'protocol model against the injected backend on concrete stores, and by running random nested jump-free programs through the '
+         'real pipeline with the injected backend against the executable whole-program model (checker + both interpreters, proved '
+         'sound for the big-step relations). End to end the semantic form is additionally validated: the '
          'tracing-style if/while/for backend is injected into the real pipeline and compared with the original on pure generated '
          'programs. Partial: composite names and exceptions inside bodies are validated only.',
     note=NOTE_BASE + 'The tracing protocol is the documented one as implemented by the harness backend (tied to its Coq model on every '
